@@ -22,7 +22,16 @@ fn run_case<T: Elem>(case: u64, args: &Args, ev: &mut Ev, log: &mut EventLog) {
         _ => pick_n(&mut rng, 3, 30),
     };
     let class = *rng.pick(&AxisClass::SMOOTH);
-    let x: Vec<T> = gen_axis(&mut rng, n, class, &AxisOpts::spline());
+    let mut x: Vec<T> = gen_axis(&mut rng, n, class, &AxisOpts::spline());
+    // a share of the axes starts exactly at 0 (then x - x0 is exact for every query, and the
+    // wrap of even the farthest query is decided by the exact remainder)
+    if case % 5 == 3 {
+        let x0 = x[0];
+        let shifted: Vec<T> = x.iter().map(|v| *v - x0).collect();
+        if shifted.iter().zip(&x).all(|(s, v)| *s + x0 == *v) && shifted.windows(2).all(|w| w[0] < w[1]) {
+            x = shifted;
+        }
+    }
     let lanes = if n > 100 { vec![] } else { gen_lane_shape(&mut rng, 2, false) };
     let mut shape = vec![n];
     shape.extend(&lanes);
@@ -73,6 +82,16 @@ fn run_case<T: Elem>(case: u64, args: &Args, ev: &mut Ev, log: &mut EventLog) {
             q.push(img.down().down().down());
         }
     }
+    // queries so far out that neighbouring floats are a period or more apart
+    let far: &[i32] = if T::MANT == 23 { &[24, 25, 30, 60, 120] } else { &[53, 54, 60, 80, 200, 1000] };
+    for &e in far {
+        for m in [1.0, -1.0, 1.37, -1.61] {
+            q.push(T::pow2(e) * T::of(m));
+        }
+    }
+    q.push(T::of(if T::MANT == 23 { 1.0e8 } else { 1.7e18 }));
+    q.push(T::of(if T::MANT == 23 { -3.0e9 } else { -4.1e17 }));
+    ev.add("far_queries", (far.len() * 4 + 2) as u64);
     // the range ends themselves and their neighbours
     for end in [x0, xn] {
         q.push(end);
